@@ -1,0 +1,606 @@
+/*!
+Verification hooks. This module is only compiled with `--cfg raindb_verif` and is not part of the
+public API of RainDB.
+
+It offers three things to an external verification harness:
+
+1. An observer registry keyed by database path. Call sites inside the database emit one event per
+   linearization point ([`event`]), announce places where a thread runs without the database mutex
+   ([`sched_point`]) and announce condition variable waits ([`about_to_wait`] / [`woke`]). With no
+   observer installed for a path every hook is a cheap no-op.
+2. Thin wrappers around crate-private types (log writer/reader, table builder/reader, filter block
+   builder/reader) so that they can be driven directly.
+3. Structural accessors on [`crate::DB`] that expose the abstract state (sequence number, table
+   layout, live files, ...).
+*/
+
+use std::collections::HashMap;
+use std::path::Path;
+use std::rc::Rc;
+use std::sync::{Arc, RwLock};
+
+use crate::db::GuardedDbFields;
+use crate::filter_policy::FilterPolicy;
+use crate::fs::FileSystem;
+use crate::key::InternalKey;
+use crate::logs::{LogReader, LogWriter};
+use crate::tables::VerifFilterBlockBuilder as FilterBlockBuilder;
+use crate::tables::VerifFilterBlockReader as FilterBlockReader;
+use crate::tables::{Table, TableBuilder};
+use crate::versioning::file_metadata::FileMetadata;
+use crate::versioning::version::Version;
+use crate::{DbOptions, Operation, RainDbIterator, ReadOptions};
+
+/// A dynamically typed value carried by hook events.
+#[derive(Clone, Debug)]
+pub enum Val {
+    /// Absent value.
+    Null,
+    /// Unsigned number.
+    U(u64),
+    /// Boolean.
+    B(bool),
+    /// Text.
+    S(String),
+    /// Raw bytes (user keys, values).
+    Bytes(Vec<u8>),
+    /// An internal key: user key, sequence number, operation (1 = put, 0 = delete).
+    IKey(Vec<u8>, u64, u8),
+    /// A table entry: user key, sequence number, operation (1 = put, 0 = delete), value.
+    Entry(Vec<u8>, u64, u8, Vec<u8>),
+    /// A list.
+    List(Vec<Val>),
+    /// A record.
+    Map(Vec<(&'static str, Val)>),
+}
+
+/// Receiver of hook notifications.
+pub trait Observer: Send + Sync {
+    /// Called at a linearization point, usually while the database mutex is held.
+    fn event(&self, name: &'static str, fields: Vec<(&'static str, Val)>);
+
+    /// Called at places where the calling thread does NOT hold the database mutex.
+    fn sched_point(&self, _name: &'static str) {}
+
+    /// Called right before a condition variable wait (mutex held).
+    fn about_to_wait(&self, _which: &'static str) {}
+
+    /// Called right after a condition variable wait returned (mutex held).
+    fn woke(&self, _which: &'static str) {}
+
+    /// Called by the background thread right before it blocks on its task channel.
+    fn bg_idle(&self) {}
+
+    /// Whether events that install new table files should carry the entries read back from disk.
+    fn wants_table_contents(&self) -> bool {
+        true
+    }
+}
+
+fn registry() -> &'static RwLock<HashMap<String, Arc<dyn Observer>>> {
+    static REGISTRY: std::sync::OnceLock<RwLock<HashMap<String, Arc<dyn Observer>>>> =
+        std::sync::OnceLock::new();
+    REGISTRY.get_or_init(|| RwLock::new(HashMap::new()))
+}
+
+/// Install an observer for the database at `db_path`.
+pub fn install(db_path: &str, observer: Arc<dyn Observer>) {
+    registry()
+        .write()
+        .unwrap()
+        .insert(db_path.to_string(), observer);
+}
+
+/// Remove the observer for the database at `db_path`.
+pub fn clear(db_path: &str) {
+    registry().write().unwrap().remove(db_path);
+}
+
+/// Get the observer for a database path if there is one.
+pub fn observer(db_path: &str) -> Option<Arc<dyn Observer>> {
+    registry().read().unwrap().get(db_path).cloned()
+}
+
+/// Emit an event. `fields` is only evaluated if an observer is installed.
+pub(crate) fn event<F>(db_path: &str, name: &'static str, fields: F)
+where
+    F: FnOnce(&dyn Observer) -> Vec<(&'static str, Val)>,
+{
+    if let Some(obs) = observer(db_path) {
+        let fields = fields(&*obs);
+        obs.event(name, fields);
+    }
+}
+
+/// Announce a point at which the calling thread does not hold the database mutex.
+pub(crate) fn sched_point(db_path: &str, name: &'static str) {
+    if let Some(obs) = observer(db_path) {
+        obs.sched_point(name);
+    }
+}
+
+/// Announce a condition variable wait.
+pub(crate) fn about_to_wait(db_path: &str, which: &'static str) {
+    if let Some(obs) = observer(db_path) {
+        obs.about_to_wait(which);
+    }
+}
+
+/// Announce the return of a condition variable wait.
+pub(crate) fn woke(db_path: &str, which: &'static str) {
+    if let Some(obs) = observer(db_path) {
+        obs.woke(which);
+    }
+}
+
+/// Announce that the background thread is about to block on its channel.
+pub(crate) fn bg_idle(db_path: &str) {
+    if let Some(obs) = observer(db_path) {
+        obs.bg_idle();
+    }
+}
+
+/// Convert an internal key to a hook value.
+pub(crate) fn ikey(key: &InternalKey) -> Val {
+    Val::IKey(
+        key.get_user_key().to_vec(),
+        key.get_sequence_number(),
+        op_code(key.get_operation()),
+    )
+}
+
+fn op_code(op: Operation) -> u8 {
+    match op {
+        Operation::Put => 1,
+        Operation::Delete => 0,
+    }
+}
+
+/// Describe a file's metadata.
+pub(crate) fn file_meta(level: usize, file: &FileMetadata) -> Val {
+    Val::Map(vec![
+        ("level", Val::U(level as u64)),
+        ("f", Val::U(file.file_number())),
+        ("size", Val::U(file.get_file_size())),
+        ("lo", ikey(file.smallest_key())),
+        ("hi", ikey(file.largest_key())),
+    ])
+}
+
+/// Describe a file's metadata together with the entries read back from the table file.
+pub(crate) fn file_meta_with_entries(
+    options: &DbOptions,
+    with_contents: bool,
+    level: usize,
+    file: &FileMetadata,
+) -> Val {
+    let ents = if with_contents {
+        match read_table_entries(options, file.file_number()) {
+            Ok(entries) => Val::List(
+                entries
+                    .into_iter()
+                    .map(|(k, s, o, v)| Val::Entry(k, s, o, v))
+                    .collect(),
+            ),
+            Err(msg) => Val::S(msg),
+        }
+    } else {
+        Val::Null
+    };
+    Val::Map(vec![
+        ("level", Val::U(level as u64)),
+        ("f", Val::U(file.file_number())),
+        ("size", Val::U(file.get_file_size())),
+        ("lo", ikey(file.smallest_key())),
+        ("hi", ikey(file.largest_key())),
+        ("ents", ents),
+    ])
+}
+
+/// Describe the files of a version, level by level.
+pub(crate) fn version_levels(version: &Version) -> Val {
+    Val::List(
+        version
+            .files
+            .iter()
+            .enumerate()
+            .map(|(level, files)| {
+                Val::List(files.iter().map(|file| file_meta(level, file)).collect())
+            })
+            .collect(),
+    )
+}
+
+/// A table entry as (user key, sequence number, operation, value).
+pub type RawEntry = (Vec<u8>, u64, u8, Vec<u8>);
+
+/// Read all entries of the table file with the given number straight from the file system.
+pub fn read_table_entries(options: &DbOptions, file_number: u64) -> Result<Vec<RawEntry>, String> {
+    let table = VTable::open(options, file_number)?;
+    let mut iter = table.iter();
+    iter.seek_to_first()?;
+    let mut entries = vec![];
+    while let Some(entry) = iter.current() {
+        entries.push(entry);
+        iter.next();
+    }
+    if let Some(err) = iter.error() {
+        return Err(err);
+    }
+    Ok(entries)
+}
+
+/// Collect the entries of a memtable.
+pub(crate) fn memtable_entries(memtable: &dyn crate::memtable::MemTable) -> Val {
+    let mut iter = memtable.iter();
+    let mut entries = vec![];
+    if iter.seek_to_first().is_ok() {
+        while let Some((key, value)) = iter.current() {
+            entries.push(Val::Entry(
+                key.get_user_key().to_vec(),
+                key.get_sequence_number(),
+                op_code(key.get_operation()),
+                value.clone(),
+            ));
+            iter.next();
+        }
+    }
+    Val::List(entries)
+}
+
+// ------------------------------------------------------------------------------------------------
+// Structural accessors
+// ------------------------------------------------------------------------------------------------
+
+/// Metadata of one table file as recorded in a version.
+#[derive(Clone, Debug)]
+pub struct FileInfo {
+    /// Level the file is at.
+    pub level: usize,
+    /// File number.
+    pub number: u64,
+    /// File size in bytes.
+    pub size: u64,
+    /// Smallest internal key: (user key, sequence, operation).
+    pub smallest: (Vec<u8>, u64, u8),
+    /// Largest internal key: (user key, sequence, operation).
+    pub largest: (Vec<u8>, u64, u8),
+}
+
+/// A dump of the guarded database state.
+#[derive(Clone, Debug)]
+pub struct StateDump {
+    /// Last published sequence number.
+    pub seq: u64,
+    /// Files of the current version, level by level in version order.
+    pub levels: Vec<Vec<FileInfo>>,
+    /// Number of versions linked in the version set.
+    pub live_versions: usize,
+    /// File numbers referenced by any linked version.
+    pub live_files: Vec<u64>,
+    /// File numbers protected because they are outputs of running flushes/compactions.
+    pub pending: Vec<u64>,
+    /// WAL number recorded in the version set.
+    pub wal: u64,
+    /// Previous WAL number recorded in the version set.
+    pub prev_wal: Option<u64>,
+    /// WAL number currently written to.
+    pub cur_wal: u64,
+    /// Current manifest number.
+    pub manifest: u64,
+    /// Most recently handed out file number.
+    pub file_counter: u64,
+    /// Whether an immutable memtable exists.
+    pub has_imm: bool,
+    /// Whether background work is scheduled.
+    pub bg_scheduled: bool,
+    /// The sticky background error if there is one.
+    pub bad_state: Option<String>,
+    /// Number of live snapshots is not tracked by the list; whether any exists.
+    pub has_snapshots: bool,
+    /// Number of queued writers.
+    pub queued_writers: usize,
+    /// Whether the version set thinks a compaction is needed.
+    pub needs_compaction: bool,
+    /// Whether a manual compaction is registered.
+    pub has_manual: bool,
+}
+
+fn key_tuple(key: &InternalKey) -> (Vec<u8>, u64, u8) {
+    (
+        key.get_user_key().to_vec(),
+        key.get_sequence_number(),
+        op_code(key.get_operation()),
+    )
+}
+
+pub(crate) fn dump_guarded(fields: &GuardedDbFields, queued_writers: usize) -> StateDump {
+    let version_set = &fields.version_set;
+    let current = version_set.get_current_version();
+    let levels = current
+        .read()
+        .element
+        .files
+        .iter()
+        .enumerate()
+        .map(|(level, files)| {
+            files
+                .iter()
+                .map(|file| FileInfo {
+                    level,
+                    number: file.file_number(),
+                    size: file.get_file_size(),
+                    smallest: key_tuple(file.smallest_key()),
+                    largest: key_tuple(file.largest_key()),
+                })
+                .collect()
+        })
+        .collect();
+    drop(current);
+    let mut live_files: Vec<u64> = version_set.get_live_files().into_iter().collect();
+    live_files.sort_unstable();
+    let mut pending: Vec<u64> = fields.tables_in_use.iter().cloned().collect();
+    pending.sort_unstable();
+
+    StateDump {
+        seq: version_set.get_prev_sequence_number(),
+        levels,
+        live_versions: version_set.verif_num_versions(),
+        live_files,
+        pending,
+        wal: version_set.get_curr_wal_number(),
+        prev_wal: version_set.maybe_prev_wal_number(),
+        cur_wal: fields.curr_wal_file_number,
+        manifest: version_set.get_manifest_file_number(),
+        file_counter: version_set.verif_file_counter(),
+        has_imm: fields.maybe_immutable_memtable.is_some(),
+        bg_scheduled: fields.background_compaction_scheduled,
+        bad_state: fields
+            .maybe_bad_database_state
+            .as_ref()
+            .map(|err| err.to_string()),
+        has_snapshots: !fields.snapshots.is_empty(),
+        queued_writers,
+        needs_compaction: version_set.needs_compaction(),
+        has_manual: fields.maybe_manual_compaction.is_some(),
+    }
+}
+
+// ------------------------------------------------------------------------------------------------
+// Log wrappers
+// ------------------------------------------------------------------------------------------------
+
+/// Wrapper around the crate-private log writer.
+pub struct VLogWriter {
+    inner: LogWriter,
+}
+
+impl VLogWriter {
+    /// Open a log writer, truncating (`append == false`) or appending (`append == true`).
+    pub fn new(fs: Arc<dyn FileSystem>, path: &Path, append: bool) -> Result<Self, String> {
+        LogWriter::new(fs, path, append)
+            .map(|inner| VLogWriter { inner })
+            .map_err(|err| err.to_string())
+    }
+
+    /// Append one record.
+    pub fn append(&mut self, data: &[u8]) -> Result<(), String> {
+        self.inner.append(data).map_err(|err| err.to_string())
+    }
+
+    /// The writer's offset within the current block.
+    pub fn block_offset(&self) -> usize {
+        self.inner.verif_block_offset()
+    }
+}
+
+/// Wrapper around the crate-private log reader.
+pub struct VLogReader {
+    inner: LogReader,
+}
+
+impl VLogReader {
+    /// Open a log reader.
+    pub fn new(fs: Arc<dyn FileSystem>, path: &Path) -> Result<Self, String> {
+        LogReader::new(fs, path, 0)
+            .map(|inner| VLogReader { inner })
+            .map_err(|err| err.to_string())
+    }
+
+    /// Read the next record: `Ok(Some(record))`, `Ok(None)` at end of file, or an error.
+    pub fn read_record(&mut self) -> Result<Option<Vec<u8>>, String> {
+        match self.inner.read_record() {
+            Ok((_, true)) => Ok(None),
+            Ok((record, false)) => Ok(Some(record)),
+            Err(err) => Err(err.to_string()),
+        }
+    }
+}
+
+// ------------------------------------------------------------------------------------------------
+// Table wrappers
+// ------------------------------------------------------------------------------------------------
+
+/// Build a table file named after `file_number` from entries that are already sorted.
+pub fn build_table(
+    options: &DbOptions,
+    file_number: u64,
+    entries: &[RawEntry],
+) -> Result<u64, String> {
+    let mut builder =
+        TableBuilder::new(options.clone(), file_number).map_err(|err| err.to_string())?;
+    for (user_key, seq, op, value) in entries {
+        let operation = if *op == 1 {
+            Operation::Put
+        } else {
+            Operation::Delete
+        };
+        let key = InternalKey::new(user_key.clone(), *seq, operation);
+        builder
+            .add_entry(Rc::new(key), value)
+            .map_err(|err| err.to_string())?;
+    }
+    builder.finalize().map_err(|err| err.to_string())?;
+    Ok(builder.file_size())
+}
+
+/// Outcome of a point lookup in one table file.
+#[derive(Clone, Debug, PartialEq, Eq)]
+pub enum TableGet {
+    /// The newest entry at or below the bound is a put with this value.
+    Value(Vec<u8>),
+    /// The newest entry at or below the bound is a deletion.
+    Deleted,
+    /// The file holds no entry for the key at or below the bound.
+    NotInFile,
+    /// The lookup failed.
+    Error(String),
+}
+
+/// Wrapper around the crate-private table reader.
+pub struct VTable {
+    inner: Arc<Table>,
+}
+
+impl VTable {
+    /// Open the table file with the given number.
+    pub fn open(options: &DbOptions, file_number: u64) -> Result<Self, String> {
+        let handler = crate::file_names::FileNameHandler::new(options.db_path().to_string());
+        let path = handler.get_table_file_path(file_number);
+        let file = options
+            .filesystem_provider()
+            .open_file(&path)
+            .map_err(|err| err.to_string())?;
+        let table = Table::open(options.clone(), file).map_err(|err| err.to_string())?;
+        Ok(VTable {
+            inner: Arc::new(table),
+        })
+    }
+
+    /// Point lookup of (user key, sequence bound).
+    pub fn get(&self, user_key: &[u8], seq: u64) -> TableGet {
+        let key = InternalKey::new_for_seeking(user_key.to_vec(), seq);
+        match self.inner.get(&ReadOptions::default(), &key) {
+            Ok(Some(value)) => TableGet::Value(value),
+            Ok(None) => TableGet::Deleted,
+            Err(crate::tables::errors::ReadError::KeyNotFound) => TableGet::NotInFile,
+            Err(err) => TableGet::Error(err.to_string()),
+        }
+    }
+
+    /// A cursor over the table.
+    pub fn iter(&self) -> VTableIter {
+        VTableIter {
+            inner: Table::iter_with(Arc::clone(&self.inner), ReadOptions::default()),
+            error: None,
+        }
+    }
+}
+
+/// Cursor over a table file.
+pub struct VTableIter {
+    inner: crate::tables::table::TwoLevelIterator,
+    error: Option<String>,
+}
+
+impl VTableIter {
+    /// Whether the cursor is positioned at an entry.
+    pub fn is_valid(&self) -> bool {
+        self.inner.is_valid()
+    }
+
+    /// Position at the first entry.
+    pub fn seek_to_first(&mut self) -> Result<(), String> {
+        self.inner.seek_to_first().map_err(|err| err.to_string())
+    }
+
+    /// Position at the last entry.
+    pub fn seek_to_last(&mut self) -> Result<(), String> {
+        self.inner.seek_to_last().map_err(|err| err.to_string())
+    }
+
+    /// Position at the first entry at or after (user key, seq).
+    pub fn seek(&mut self, user_key: &[u8], seq: u64) -> Result<(), String> {
+        let key = InternalKey::new_for_seeking(user_key.to_vec(), seq);
+        self.inner.seek(&key).map_err(|err| err.to_string())
+    }
+
+    /// Move forward.
+    pub fn next(&mut self) {
+        self.inner.next();
+    }
+
+    /// Move backward.
+    pub fn prev(&mut self) {
+        self.inner.prev();
+    }
+
+    /// The entry under the cursor.
+    pub fn current(&self) -> Option<RawEntry> {
+        self.inner.current().map(|(key, value)| {
+            (
+                key.get_user_key().to_vec(),
+                key.get_sequence_number(),
+                op_code(key.get_operation()),
+                value.clone(),
+            )
+        })
+    }
+
+    /// An error recorded by the cursor, if any.
+    pub fn error(&self) -> Option<String> {
+        self.error.clone()
+    }
+}
+
+// ------------------------------------------------------------------------------------------------
+// Filter block wrappers
+// ------------------------------------------------------------------------------------------------
+
+/// Wrapper around the crate-private filter block builder.
+pub struct VFilterBuilder {
+    inner: FilterBlockBuilder,
+}
+
+impl VFilterBuilder {
+    /// Create a builder using `policy`.
+    pub fn new(policy: Arc<dyn FilterPolicy>) -> Self {
+        VFilterBuilder {
+            inner: FilterBlockBuilder::new(policy),
+        }
+    }
+
+    /// A new data block starts at `block_offset`.
+    pub fn start_block(&mut self, block_offset: usize) {
+        self.inner.notify_new_data_block(block_offset);
+    }
+
+    /// Add a key belonging to the current data block.
+    pub fn add_key(&mut self, key: Vec<u8>) {
+        self.inner.add_key(key);
+    }
+
+    /// Finish and return the serialized filter block.
+    pub fn finish(&mut self) -> Vec<u8> {
+        self.inner.finalize()
+    }
+}
+
+/// Wrapper around the filter block reader.
+pub struct VFilterReader {
+    inner: FilterBlockReader,
+}
+
+impl VFilterReader {
+    /// Parse a serialized filter block.
+    pub fn new(policy: Arc<dyn FilterPolicy>, data: Vec<u8>) -> Result<Self, String> {
+        FilterBlockReader::new(policy, data)
+            .map(|inner| VFilterReader { inner })
+            .map_err(|err| err.to_string())
+    }
+
+    /// Ask whether `key` may be in the data block starting at `block_offset`.
+    pub fn key_may_match(&self, block_offset: u64, key: &[u8]) -> bool {
+        self.inner.key_may_match(block_offset, key)
+    }
+}
